@@ -1,9 +1,9 @@
 """C33 Status filters agree with displayed statuses -- the real _job_status_term (SQL three-valued logic,
 A-ORM fragment) against the real Job.calc_status / Execution status mapping, over the complete finite row domain."""
 import ast
-from pyvc.smt import *
-from pyvc.core import Module
-from pyvc import extract
+from pvc.smt import *
+from pvc.core import Module
+from pvc import extract
 
 PROPERTY = "C33"
 Q = "redun/backends/db/query.py"
